@@ -11,6 +11,7 @@ import (
 	"context"
 	"fmt"
 	"io"
+	"io/ioutil"
 	"sort"
 	"strings"
 	"time"
@@ -718,10 +719,25 @@ func main() {
 			rp := rp
 			jobs = append(jobs, job{rp: &rp})
 		}
+		// exhaustive small scope: every limit sequence over {1,2,3} of length L on a 7-event/3-chunk store, cached and
+		// uncached, then drained
+		L := 3
+		if c.Tier == "thorough" {
+			L = 4
+		}
+		for _, rp := range exhaustive(L) {
+			rp := rp
+			jobs = append(jobs, job{rp: &rp})
+		}
 		// (NewRng(seed) of common is an arithmetic progression in the seed: the streams of seed s and s+1 are
 		// shifted copies of one another. Scramble the seed first so that different seeds give different cases.)
 		root := NewRng(mix64(c.Seed))
-		n := c.N(220)
+		n := c.N(380)
+		if n > 900 {
+			// every in-process server leaves the descriptors of its chunk writers open (the journal controller
+			// has no Shutdown, see C07): stay well below RLIMIT_NOFILE; the thorough tier uses more seeds instead
+			n = 900
+		}
 		for i := 0; i < n; i++ {
 			jobs = append(jobs, job{gen: root.Fork()})
 		}
@@ -742,6 +758,9 @@ func main() {
 			}
 			c.Add(*res[i])
 		}
+		if fds, err := ioutil.ReadDir("/proc/self/fd"); err == nil {
+			c.Note("open_fds_at_end", len(fds))
+		}
 		return c.Finish(rule)
 	})
 }
@@ -758,4 +777,37 @@ func mix64(z uint64) uint64 {
 	z = (z ^ (z >> 33)) * 0xc4ceb9fe1a85ec53
 	z ^= z >> 33
 	return z*2862933555777941757 + 3037000493
+}
+
+func exhaustive(L int) []Replay {
+	var evs []Batch
+	for i := 1; i <= 7; i++ {
+		f := ""
+		if i%3 == 0 {
+			f = fmt.Sprintf("n=%d", i)
+		}
+		evs = append(evs, Batch{Part: 0, Evs: []Ev{{int64(1000 + i), fmt.Sprintf("m%05d", i), f}}})
+	}
+	var res []Replay
+	n := 1
+	for i := 0; i < L; i++ {
+		n *= 3
+	}
+	kinds := []string{"same", "evict", "zero", "posonly"}
+	for code := 0; code < n; code++ {
+		for _, wait := range []bool{false, true} {
+			rp := Replay{Name: fmt.Sprintf("exhaustive-%d-%v", code, wait), Chunk: 60, Init: evs}
+			x := code
+			for i := 0; i < L; i++ {
+				rp.Steps = append(rp.Steps, Step{Kind: kinds[(code+i)%4], Limit: int64(x%3 + 1), Wait: wait, Rpc: (code+i)%2 == 0})
+				x /= 3
+			}
+			rp.Steps[0].Kind = "same"
+			for i := 0; i < 4; i++ { // 4 x 3 >= 7: the read ends with a short page
+				rp.Steps = append(rp.Steps, Step{Kind: "same", Limit: 3, Wait: false})
+			}
+			res = append(res, rp)
+		}
+	}
+	return res
 }
